@@ -1,7 +1,7 @@
 #!/bin/bash
 # usage: trymut.sh <patch.diff> <ID> [extra vcheck args]   — apply a patch to /repo, run the check, always revert.
 set -u
-patch="$1"; id="$2"; shift 2
+patch="$(realpath "$1")"; id="$2"; shift 2
 cd /repo || exit 2
 if ! git diff --quiet; then echo "/repo is dirty, refusing"; exit 2; fi
 git apply "$patch" || { echo "patch does not apply"; exit 2; }
